@@ -252,7 +252,10 @@ def run_fn(case, rng):
         y = make_input(rng, inp, shape, cplx, {"k": "l1", "lam": lam}, 1.0)
         x = sp.hard_thresh(lam, y)
         ref = np.where(np.abs(y) > lam, y, 0)
-        if x.shape != y.shape or not np.array_equal(x, ref):
+        # |y| == lam ties: numba's and numpy's complex abs may differ by one ulp
+        tie = np.abs(np.abs(y) - lam) <= 1e-12 * lam
+        if x.shape != y.shape or not np.array_equal(x[~tie], ref[~tie]) or \
+                np.any((x[tie] != 0) & (x[tie] != y[tie])):
             return violated(sig, "hard_thresh differs from its definition", wit,
                             mech="fn:hard_thresh")
         return held(sig, {}, 1)
